@@ -78,6 +78,13 @@ def items(tier):
     for b in nests:
         out.append((f"nest|{b}", prog(["do j = 1, m + 1", "  do i = 1, n", "    " + b, "  end do",
                                        "end do"])))
+    # 2-D array, loop-invariant first subscript (incl. integer divisions that coincide)
+    for b in ["c(n/2,i) = c((n+1)/2,i-1)", "c(m,i) = c(n,i-1)", "c(1,i) = c(2,i-1)", "c(n,i) = c(n+1,i-1)",
+              "c(n/2,i) = c(n/2+1,i-1)", "c(m/2,i) = c((m-1)/2,i+1)", "c(i,n/2) = c(i-1,(n+1)/2)",
+              "c(mod(n,2),i) = c(0,i-1)", "c(n-m,i) = c(0,i-1) + 1.0", "c(2*m,i) = c(m+m,i-1)",
+              "c(1:3,i) = c(2:4,i-1) + 1.0", "c(1:3,i) = c(1:3,i) * 2.0", "c(0:2,i) = c(3:5,i-1)",
+              "c(i,1:3) = c(i-1,2:4)", "c(1:2,i) = c(3:4,i+1)", "c(0:1,i) = c(1:2,i)"]:
+        out.append((f"inv|{b}", prog(["do i = 1, n", "  " + b, "end do"])))
     # other bounds / steps
     for (lo, hi, st), b in itertools.product(
             [("2", "2*n", ", 2"), ("n", "1", ", -1"), ("0", "n", "")],
